@@ -182,7 +182,9 @@ def run_closings(spec):
                     pipework.monitor_failures(sh, r, case, seg=True)
                     sh.add_asserts({k: v for k, v in r.sess.asserts.items() if k.startswith("seg.")})
                     if r.outcome != "ok":
+                        # valid C: a fatal diagnostic here means text was left over by a statement cut in the wrong place
                         sh.tally("fragment_outcomes", "type_closing->" + r.outcome)
+                        sh.violation("valid_type_definition_not_analysed", (c, r.outcome), case, {"closing": c, "head": h, "why": str(r.detail)[:160]})
                         continue
                     sh.count("c07.global_scope_at_end_of_file")
                     st = r.sess.stmts
@@ -256,6 +258,8 @@ def replay(case, sh):
     pipework.monitor_failures(sh, r, case, seg=True)
     if r.sess.unrec and r.outcome == "ok":
         sh.violation("unrecognised_dropped", (case.get("fragment"),), case, {"status": r.status, "first": r.sess.unrec[0]})
+    if case.get("closing") and r.outcome != "ok":
+        sh.violation("valid_type_definition_not_analysed", ("replay",), case, {})
     if case.get("closing") and r.outcome == "ok":
         st = r.sess.stmts
         if not st or st[-1][7] != ("GlobalScope", 0):
